@@ -614,6 +614,11 @@ const ALPHA8: &[&str] = &["a", "b", "!", "\"", "\\", "\u{1}", " ", "\u{e9}"];
 /// '\\' (0x5c) in code-point order
 const ALPHA_ESC: &[&str] = &["\"", "#", "0", "A", "[", "\\", "]", "a"];
 
+/// a third alphabet across the UTF-8 length classes and the UTF-16 surrogate boundary (all NFC-inert):
+/// code-point order, UTF-8 byte order and UTF-16 code-unit order disagree only between U+E000..U+FFFF
+/// and the supplementary planes
+const ALPHA_PLANES: &[&str] = &["a", "\u{80}", "\u{7ff}", "\u{800}", "\u{e000}", "\u{ffff}", "\u{10000}", "\u{1f37a}"];
+
 fn all_keys_over(alpha: &[&str]) -> Vec<String> {
     let mut v = vec![String::new()];
     for a in alpha {
@@ -826,6 +831,17 @@ pub fn check(ctx: &Ctx) -> Vec<PartReport> {
             require: vec![],
         },
     ));
+    let seen3 = Mutex::new(HashMap::new());
+    out.push(run_part(
+        ctx,
+        PartSpec {
+            name: "keysets-planes",
+            rule: "EXHAUSTIVE: the same enumeration over a third alphabet {a, U+0080, U+07FF, U+0800, U+E000, U+FFFF, U+10000, U+1F37A}: one character on each side of every UTF-8 length boundary and of the UTF-16 surrogate boundary, so that ordering by UTF-16 code units (or by anything but code points) is visible. Non-trivial / distinct as in keysets",
+            mode: Mode::Enumerate { cases: keysets_over(&all_keys_over(ALPHA_PLANES), 3), complete: true },
+            prop: Box::new(|k: &KeySet| check_keyset(k, &seen3)),
+            require: vec![],
+        },
+    ));
     let n = ctx.cases(400_000, 6_000_000);
     out.push(run_part(
         ctx,
@@ -859,7 +875,7 @@ pub fn replay(_ctx: &Ctx, part: &str, case: &Value) -> Outcome {
     }
     match part {
         "colliding-keys" => crate::engine::replay_case::<Collision>(case, check_collision),
-        "keysets" | "keysets-escapes" => {
+        "keysets" | "keysets-escapes" | "keysets-planes" => {
             let seen = Mutex::new(HashMap::new());
             crate::engine::replay_case::<KeySet>(case, |k| check_keyset(k, &seen))
         }
